@@ -732,6 +732,12 @@ func VarBuilder(env *Zlisp, name string,
 		return SexpNull, fmt.Errorf("var declaration error: could not make type '%s': %v",
 			rt.SexpString(nil), err)
 	}
+	if val == nil {
+		// a type that exists by name only (a slice of an element type
+		// without a Go type) has no zero value to declare a variable of
+		return SexpNull, fmt.Errorf("var declaration error: type '%s' has no value to make a variable of",
+			rt.SexpString(nil))
+	}
 	var valSexp Sexp
 	//Q("val is of type %T", val)
 	switch v := val.(type) {
